@@ -270,11 +270,14 @@ fn c04_graph(prop: &'static str, case: &GCase, g: &GS, d: &Dense, weighted: bool
     let heavy = n > 130;
     // multi_source over a subset with a duplicate, all_pairs over everything
     if n > 0 && !heavy {
-        let mut subset: Vec<usize> = (0..n).filter(|_| rng.chance(1, 2)).collect();
+        let mut subset: Vec<usize> = if n >= 2 && rng.chance(1, 4) { (0..n - 1).collect() } else { (0..n).filter(|_| rng.chance(1, 2)).collect() };
         if subset.is_empty() {
             subset.push(rng.below(n));
         }
         subset.push(subset[0]);
+        if subset.len() == n {
+            ctx::count("reach:source-list-of-n-entries-with-a-repeat");
+        }
         let names: Vec<String> = subset.iter().map(|i| d.names[*i].clone()).collect();
         match guard("dijkstra::multi_source", || dijkstra::multi_source(g, weighted, names.clone(), None, None, !all_paths, true)) {
             Err(c) => pc.fail("multi_source", &c.class(), c.json()),
@@ -379,6 +382,86 @@ pub fn run_c04(a: &Args) {
             ctx::sample_tagged(&format!("{}-{}", case.specs.kind_label(), if big { "large" } else { "small" }), || case.json());
         }
     }
+    // trees with positive weights forty orders of magnitude apart: one path per reachable pair,
+    // whatever floating point does to the sums
+    let trees: u64 = if a.thorough { 6000 } else { 400 };
+    for k in 0..trees {
+        if !ctx::mine(total + k) {
+            continue;
+        }
+        let mut rng = Rng::new(mix(a.seed ^ 0xC04_7EE, k));
+        let case = mixed_magnitude_tree(&mut rng);
+        ctx::case_desc(case.json());
+        let g = case.build();
+        let d = Dense::from_graph(&g);
+        let kind = kind_class(&g);
+        ctx::count("reach:tree-with-weights-that-absorb-each-other");
+        let hop = oracle::apsp(&d, false);
+        let fail = |func: &str, class: &str, detail: Value| {
+            ctx::violation(&format!("C04|{}|{}|{}", func, class, kind), &format!("{}: {}", func, class), json!({"detail": detail, "graph": case.json(), "stored_edges": d.edges.iter().map(|(u, v, w)| json!([d.names[*u], d.names[*v], w])).collect::<Vec<_>>()}));
+        };
+        let ap = match guard("dijkstra::all_pairs", || dijkstra::all_pairs(&g, true, None, None, false, true)) {
+            Ok(Ok(m)) => Some(m),
+            Ok(Err(e)) => { fail("all_pairs", &format!("error:{}", err_name(&e.kind)), json!(null)); None }
+            Err(c) => { fail("all_pairs", &c.class(), c.json()); None }
+        };
+        'src: for s in 0..d.n {
+            let ss = match guard("dijkstra::single_source", || dijkstra::single_source(&g, true, d.names[s].clone(), None, None, false, true)) {
+                Ok(Ok(m)) => m,
+                Ok(Err(e)) => { fail("single_source", &format!("error:{}", err_name(&e.kind)), json!(null)); break }
+                Err(c) => { fail("single_source", &c.class(), c.json()); break }
+            };
+            ctx::eval(1);
+            for t in 0..d.n {
+                let reachable = hop[s][t] != INF;
+                for (func, info) in [("single_source", ss.get(&d.names[t])), ("all_pairs", ap.as_ref().and_then(|m| m.get(&d.names[s])).and_then(|m| m.get(&d.names[t])))] {
+                    if func == "all_pairs" && ap.is_none() {
+                        continue;
+                    }
+                    match (reachable, info) {
+                        (false, None) => {}
+                        (false, Some(_)) => { fail(func, "unreachable-node-reported", json!({"source": d.names[s], "target": d.names[t]})); break 'src }
+                        (true, None) => { fail(func, "reachable-target-missing", json!({"source": d.names[s], "target": d.names[t]})); break 'src }
+                        (true, Some(i)) => {
+                            if i.paths.len() != 1 || i.paths[0].len() != hop[s][t] as usize + 1 || i.paths[0].first() != Some(&d.names[s]) || i.paths[0].last() != Some(&d.names[t]) {
+                                fail(func, "not-the-single-tree-path", json!({"source": d.names[s], "target": d.names[t], "paths": i.paths, "hops": hop[s][t]}));
+                                break 'src;
+                            }
+                            // the path's own weight, summed from the source
+                            let pos: Vec<usize> = i.paths[0].iter().map(|x| d.names.iter().position(|y| y == x).unwrap()).collect();
+                            let mut sum = 0.0;
+                            let mut follows = true;
+                            for w in pos.windows(2) {
+                                if d.minw[w[0]][w[1]] == INF { follows = false; break }
+                                sum += d.minw[w[0]][w[1]];
+                            }
+                            if !follows || !(i.distance == sum || (i.distance - sum).abs() <= 1e-12 * sum.abs()) {
+                                fail(func, "distance-differs-from-path-weight", json!({"source": d.names[s], "target": d.names[t], "distance": i.distance, "path_weight": sum, "follows_edges": follows}));
+                                break 'src;
+                            }
+                        }
+                    }
+                }
+            }
+        }
+        ctx::nontrivial(case.hash());
+    }
+}
+
+/// A tree on 3..13 nodes (directed: random orientations) with weights from 5e-21 to 1e20.
+pub fn mixed_magnitude_tree(rng: &mut Rng) -> GCase {
+    let n = rng.range(3, 14);
+    let directed = rng.coin();
+    let names: Vec<String> = (0..n).map(|i| format!("t{}", i)).collect();
+    const MAGS: [f64; 9] = [5e-21, 3e-20, 1e-9, 0.25, 1.0, 7.0, 1e10, 3e19, 1e20];
+    let mut edges = vec![];
+    for i in 1..n {
+        let p = if rng.chance(1, 3) { i - 1 } else { rng.below(i) };
+        let w = MAGS[rng.below(MAGS.len())];
+        if rng.coin() { edges.push((p, i, w)) } else { edges.push((i, p, w)) }
+    }
+    rng.shuffle(&mut edges);
+    GCase { specs: Specs::kind(directed, false, false), names, edges, family: "tree-mixed-magnitudes", wclass: WClass::Exact }
 }
 
 // ============================================================================ C05 / C06
@@ -498,6 +581,44 @@ pub fn run_c05(a: &Args) {
             ctx::nontrivial(case.hash());
             ctx::sample_tagged(&case.specs.kind_label(), || case.json());
         }
+    }
+    // trees whose positive weights span forty orders of magnitude: every pair has at most one
+    // path, so the weighted answer is the hop-count answer whatever floating point does to sums
+    let trees: u64 = if a.thorough { 6000 } else { 400 };
+    for k in 0..trees {
+        if !ctx::mine(total + k) {
+            continue;
+        }
+        let mut rng = Rng::new(mix(a.seed ^ 0xC05_7EE, k));
+        let case = mixed_magnitude_tree(&mut rng);
+        ctx::case_desc(case.json());
+        let g = case.build();
+        let d = Dense::from_graph(&g);
+        let kind = kind_class(&g);
+        ctx::count("reach:tree-with-weights-that-absorb-each-other");
+        let raw = oracle::betweenness_unscaled(&d, false, 0.0);
+        for normalized in [false, true] {
+            let want = oracle::scale_betweenness(&d, &raw, normalized);
+            ctx::eval(1);
+            match guard("betweenness_centrality", || betweenness::betweenness_centrality(&g, true, normalized)) {
+                Err(c) => ctx::violation(&format!("C05|betweenness_centrality|{}|{}", c.class(), kind), "betweenness_centrality panicked", json!({"caught": c.json(), "graph": case.json()})),
+                Ok(Err(e)) => ctx::violation(&format!("C05|betweenness_centrality|error:{}|{}", err_name(&e.kind), kind), "betweenness_centrality failed", json!({"graph": case.json()})),
+                Ok(Ok(map)) => {
+                    for i in 0..d.n {
+                        let got = map.get(&d.names[i]).copied().unwrap_or(f64::NAN);
+                        if !approx(got, want[i]) {
+                            ctx::violation(
+                                &format!("C05|betweenness_centrality|wrong-value-on-tree-with-mixed-magnitudes|{}", kind),
+                                "weighted betweenness on a tree differs from the (weight-independent) definition",
+                                json!({"node": d.names[i], "got": got, "want": want[i], "normalized": normalized, "graph": case.json(), "stored_edges": d.edges.iter().map(|(u, v, w)| json!([d.names[*u], d.names[*v], w])).collect::<Vec<_>>()}),
+                            );
+                            break;
+                        }
+                    }
+                }
+            }
+        }
+        ctx::nontrivial(case.hash());
     }
 }
 
